@@ -371,31 +371,39 @@ theorem safe_parserCall (W : DataWorld V) (L : Legacy) (hL : L.dataFixed = true)
   unfold parserCall
   safe_auto
 
-/-- **data-class construction `Cls(**kwargs)`**: only ParseError, unless the developer's own
-`__post_init__`/`__validate__` raises something else -/
+/-- **data-class construction**: only ParseError, unless the developer's own
+`__post_init__`/`__validate__` raises something else; for the running options `o`, whatever they are -/
 theorem C04_class_init_no_escape (W : DataWorld V) (o : Opts) (P : ParserDecl V) (postInit : M Unit)
-    (hpost : Safe postInit) (kw : List (Nat × V)) : Safe (classInit W Legacy.none o P postInit kw) := by
+    (hpost : Safe postInit) (kw : List (Nat × V)) (schema : Bool) :
+    Safe (classInit W Legacy.none o P postInit kw schema) := by
   have h := safe_parserCall W Legacy.none rfl o P kw
   unfold classInit
   safe_auto
 
-/-- **`Cls.__from__(data)` / nested data-class conversion**: only ParseError, for any input object —
-provided the keyword unpacking `**data` itself does not fail, i.e. the mapping is string-keyed at the
-top level (the property's own proviso) or `cast_keyword_str` made it so -/
-theorem C04_init_dataclass_no_escape (W : DataWorld V) (o : Opts) (P : ParserDecl V) (postInit : M Unit)
-    (hpost : Safe postInit) (hunpack : ∀ d, Safe (W.unpack d)) (data : V) :
-    Safe (initDataclass W Legacy.none o P postInit data) := by
-  have h := fun kw => C04_class_init_no_escape W o P postInit hpost kw
+/-- `Cls(**kwargs)` (context made from the declared options) -/
+theorem C04_class_call_no_escape (W : DataWorld V) (declared : Opts) (P : ParserDecl V) (postInit : M Unit)
+    (hpost : Safe postInit) (kw : List (Nat × V)) (schema : Bool) :
+    Safe (classCall W Legacy.none declared P postInit kw schema) :=
+  C04_class_init_no_escape W _ P postInit hpost kw schema
+
+/-- **`Cls.__from__(data, options)` / `init_dataclass` / nested data-class conversion**: only ParseError, for any
+input object, any declared options, any options given for the call, any enclosing context — provided the keyword
+unpacking `**data` itself does not fail, i.e. the mapping is string-keyed at the top level (the property's own
+proviso) or `cast_keyword_str` made it so -/
+theorem C04_init_dataclass_no_escape (W : DataWorld V) (declared : Opts) (given ctx : Option Opts)
+    (P : ParserDecl V) (postInit : M Unit) (hpost : Safe postInit) (hunpack : ∀ d, Safe (W.unpack d)) (data : V)
+    (schema : Bool) : Safe (initDataclass W Legacy.none declared given ctx P postInit data schema) := by
+  have h := fun o kw => C04_class_init_no_escape W o P postInit hpost kw schema
   unfold initDataclass
   safe_auto
-  all_goals first | exact h _ | exact hunpack _
+  all_goals first | exact h _ _ | exact hunpack _ | exact safe_parseData W Legacy.none rfl _ P [] _
 
 /-- **no instance on error**: when parsing fails, construction *is* that failure — attribute assignment
 and the post-init hook are never sequenced and the context is left exactly as parsing left it -/
 theorem C04_no_instance_on_error (W : DataWorld V) (L : Legacy) (o : Opts) (P : ParserDecl V)
-    (postInit : M Unit) (kw : List (Nat × V)) (s : St) (e : Exc)
+    (postInit : M Unit) (kw : List (Nat × V)) (schema : Bool) (s : St) (e : Exc)
     (hfail : (parserCall W L o P kw s).1 = .raise e) :
-    classInit W L o P postInit kw s = (.raise e, (parserCall W L o P kw s).2) := by
+    classInit W L o P postInit kw schema s = (.raise e, (parserCall W L o P kw s).2) := by
   unfold classInit
   rw [bind_apply]
   rcases h : parserCall W L o P kw s with ⟨r, s'⟩
@@ -406,10 +414,84 @@ theorem C04_no_instance_on_error (W : DataWorld V) (L : Legacy) (o : Opts) (P : 
 
 /-- the trace reading: a failed construction adds no `attrsSet`/`postInit` event of its own -/
 theorem C04_no_instance_on_error_trace (W : DataWorld V) (L : Legacy) (o : Opts) (P : ParserDecl V)
-    (postInit : M Unit) (kw : List (Nat × V)) (s : St) (e : Exc)
+    (postInit : M Unit) (kw : List (Nat × V)) (schema : Bool) (s : St) (e : Exc)
     (hfail : (parserCall W L o P kw s).1 = .raise e) :
-    (classInit W L o P postInit kw s).2.trace = (parserCall W L o P kw s).2.trace := by
-  rw [C04_no_instance_on_error W L o P postInit kw s e hfail]
+    (classInit W L o P postInit kw schema s).2.trace = (parserCall W L o P kw s).2.trace := by
+  rw [C04_no_instance_on_error W L o P postInit kw schema s e hfail]
+
+/-! ### declared vs running options: collected errors are never dropped -/
+
+/-- **`BaseParser.__call__` succeeds only with a clean context**: whatever the running options are (declared on
+the class, given for the call, or pushed down with `override`), a result comes out only if nothing is left in
+`errors`/`tmp_errors` — `raise_error` consults no option at all -/
+theorem C04_parser_call_ok_clean (W : DataWorld V) (L : Legacy) (o : Opts) (P : ParserDecl V)
+    (kw : List (Nat × V)) (s s' : St) (r : List (Nat × V))
+    (hok : parserCall W L o P kw s = (.ok r, s')) : s'.errors = [] ∧ s'.tmp = [] := by
+  unfold parserCall at hok
+  rw [bind_apply] at hok
+  rcases h : parseData W L o P [] kw s with ⟨r1, s1⟩
+  rw [h] at hok
+  cases r1 with
+  | raise e => simp at hok
+  | diverge => simp at hok
+  | ok a =>
+    simp only at hok
+    rw [bind_apply] at hok
+    unfold raiseError at hok
+    by_cases hc : (s1.errors.isEmpty && s1.tmp.isEmpty) = true
+    · simp only [hc, if_true] at hok
+      simp only [pure_apply, Prod.mk.injEq, Res.ok.injEq] at hok
+      obtain ⟨_, rfl⟩ := hok
+      simp only [Bool.and_eq_true, List.isEmpty_iff] at hc
+      exact hc
+    · simp only [hc] at hok
+      simp at hok
+
+/-- **errors collected while parsing are never dropped**: if `parse_data` comes back with anything collected, the
+construction raises exactly that as a CollectedParseError and sequences neither `set_attributes` nor post-init —
+for every running option record, in particular when `collect_errors` was not declared on the class -/
+theorem C04_no_instance_with_collected_errors (W : DataWorld V) (L : Legacy) (o : Opts) (P : ParserDecl V)
+    (postInit : M Unit) (kw : List (Nat × V)) (schema : Bool) (s s1 : St) (r : List (Nat × V))
+    (hparse : parseData W L o P [] kw s = (.ok r, s1)) (hleft : s1.errors ≠ [] ∨ s1.tmp ≠ []) :
+    classInit W L o P postInit kw schema s = (.raise (.collected (s1.errors ++ s1.tmp)), s1) := by
+  have hfail : parserCall W L o P kw s = (.raise (.collected (s1.errors ++ s1.tmp)), s1) := by
+    unfold parserCall
+    rw [bind_apply, hparse]
+    simp only
+    rw [bind_apply]
+    unfold raiseError
+    have hc : (s1.errors.isEmpty && s1.tmp.isEmpty) = false := by
+      rcases hleft with h | h
+      · cases he : s1.errors with
+        | nil => exact absurd he h
+        | cons a l => simp
+      · cases ht : s1.tmp with
+        | nil => exact absurd ht h
+        | cons a l => simp
+    simp [hc]
+  have := C04_no_instance_on_error W L o P postInit kw schema s _ (by rw [hfail])
+  rw [this, hfail]
+
+/-- the declared options matter only through the options the context runs with -/
+theorem C04_declared_options_only_through_running (W : DataWorld V) (L : Legacy) (d d' : Opts)
+    (given ctx : Option Opts) (P : ParserDecl V) (postInit : M Unit) (data : V) (schema : Bool)
+    (h : runningOpts d given ctx = runningOpts d' given ctx) :
+    initDataclass W L d given ctx P postInit data schema = initDataclass W L d' given ctx P postInit data schema := by
+  unfold initDataclass
+  rw [h]
+
+/-- options given for one call run it (no enclosing context) -/
+theorem C04_given_options_run (d g : Opts) : runningOpts d (some g) none = g := rfl
+
+/-- options of an enclosing context with `override` replace declared options that do not say `override` themselves -/
+theorem C04_override_pushes_down (d c : Opts) (hc : c.override = true) (hd : d.override = false) :
+    runningOpts d none (some c) = c := by
+  simp [runningOpts, makeContextOpts, hc, hd]
+
+/-- without `override` above (or with `override` declared below) the declared options run -/
+theorem C04_declared_options_run (d c : Opts) (h : c.override = false ∨ d.override = true) :
+    runningOpts d none (some c) = d := by
+  rcases h with h | h <;> simp [runningOpts, makeContextOpts, h]
 
 /-! ## decorated functions -/
 
@@ -820,19 +902,19 @@ theorem term_parseData (W : DataWorld V) (hW : W.Terminates) (L : Legacy) (o : O
 
 /-- **data-class construction terminates whenever the field converters and the post-init hook do** -/
 theorem C04_class_init_terminates (W : DataWorld V) (hW : W.Terminates) (L : Legacy) (o : Opts)
-    (P : ParserDecl V) (postInit : M Unit) (hpost : Term postInit) (kw : List (Nat × V)) :
-    Term (classInit W L o P postInit kw) := by
+    (P : ParserDecl V) (postInit : M Unit) (hpost : Term postInit) (kw : List (Nat × V)) (schema : Bool) :
+    Term (classInit W L o P postInit kw schema) := by
   have h := term_parseData W hW L o P [] kw
   unfold classInit parserCall
   term_auto
 
-theorem C04_init_dataclass_terminates (W : DataWorld V) (hW : W.Terminates) (L : Legacy) (o : Opts)
-    (P : ParserDecl V) (postInit : M Unit) (hpost : Term postInit) (data : V) :
-    Term (initDataclass W L o P postInit data) := by
-  have h := fun kw => C04_class_init_terminates W hW L o P postInit hpost kw
+theorem C04_init_dataclass_terminates (W : DataWorld V) (hW : W.Terminates) (L : Legacy) (declared : Opts)
+    (given ctx : Option Opts) (P : ParserDecl V) (postInit : M Unit) (hpost : Term postInit) (data : V)
+    (schema : Bool) : Term (initDataclass W L declared given ctx P postInit data schema) := by
+  have h := fun o kw => C04_class_init_terminates W hW L o P postInit hpost kw schema
   unfold initDataclass
   term_auto
-  all_goals first | exact h _ | dterm_close hW
+  all_goals first | exact h _ _ | dterm_close hW | exact term_parseData W hW L _ P [] _
 
 theorem term_posArgs (W : DataWorld V) (hW : W.Terminates) (L : Legacy) (o : Opts) (F : FuncDecl V)
     (xs : List V) : ∀ i args keys, Term (posArgs W L o F xs i args keys) := by
